@@ -251,7 +251,43 @@ func (w *Workspace) UpdateFile(path, content string) {
 
 	if !sameStringSlice(oldIncludes, fileIndex.Includes) {
 		w.refreshIncludeTreeLocked()
+		w.reorderFilesLocked()
 	}
+}
+
+// reorderFilesLocked puts FileOrder into the order a fresh resolution gives:
+// depth first, following the include directives of each file in turn, every
+// file at its first visit. Where files disagree (the posting template of a
+// payee, the format of a commodity) the order decides which one wins, so it
+// must not depend on the history of edits.
+func (w *Workspace) reorderFilesLocked() {
+	if w.resolved == nil || w.rootJournalPath == "" {
+		return
+	}
+	seen := map[string]bool{w.rootJournalPath: true}
+	order := make([]string, 0, len(w.resolved.FileOrder))
+	var visit func(path string)
+	visit = func(path string) {
+		for _, inc := range w.includeGraph[path] {
+			if seen[inc] {
+				continue
+			}
+			seen[inc] = true
+			if _, member := w.resolved.Files[inc]; member {
+				order = append(order, inc)
+			}
+			visit(inc)
+		}
+	}
+	visit(w.rootJournalPath)
+	// anything the walk did not reach keeps its place at the end
+	for _, path := range w.resolved.FileOrder {
+		if !seen[path] {
+			seen[path] = true
+			order = append(order, path)
+		}
+	}
+	w.resolved.FileOrder = order
 }
 
 func (w *Workspace) buildIndexFromResolvedLocked() {
